@@ -17,6 +17,8 @@ CHECK = {
     "units": [
         {"name": "core", "pkg": "./internal/verifh/core", "run": "^TestVerifC12$", "rewrite": SYNC_RW,
          "shards": {"quick": 8, "thorough": 8}, "timeout": {"quick": 900, "thorough": 3000}},
+        {"name": "remount", "pkg": "./internal/verifh/core", "run": "^TestVerifC12Remount$", "rewrite": SYNC_RW,
+         "shards": {"quick": 16, "thorough": 16}, "timeout": {"quick": 600, "thorough": 1200}},
     ],
 }
 
